@@ -215,6 +215,23 @@ func runC04(c *core.Ctx) {
 			}
 		}
 	}
+	// every printable ASCII character inside the hrp, in a lower-case and an upper-case string, at three positions
+	for ch := 33; ch <= 126; ch++ {
+		for _, shape := range []string{"a%sb", "%sab", "ab%s", "%s"} {
+			h := fmt.Sprintf(shape, string(rune(ch)))
+			for _, data := range [][]byte{{}, {0, 31, 7}} {
+				low := rb.EncodeSymbols(rb.Lower(h), data)
+				if c04Judge(c, low, "hrp-char") {
+					nontriv++
+				}
+				if up := rb.Upper(low); up != low {
+					if c04Judge(c, up, "hrp-char") {
+						nontriv++
+					}
+				}
+			}
+		}
+	}
 	c.Set("accepted_by_symbol_count", fmt.Sprint(validBySymLen))
 	c.Sample(mkValid("a", []byte{31, 28}))
 
